@@ -35,7 +35,13 @@ CheckDispatch(e) ==
 CheckFuzz(e) ==
   Judge("C04", "NoPanic", e.panics = 0, e.first, "no panic")
 
+\* a value a dispatcher returned does not change when the dispatcher is given the next message of the same type
+CheckHold(e) ==
+  /\ Judge("C04", "NoPanic", e.first.t # "panic", e.first, "no panic")
+  /\ Judge("C05", "DispatchIndependent", e.first.t = "ok" /\ e.first_after = e.first, <<e.type, e.first_after>>, e.first)
+
 Check(e) == CASE e.fn = "rt" -> CheckRT(e)
+              [] e.fn = "hold" -> CheckHold(e)
               [] e.fn = "dispatch" -> CheckDispatch(e)
               [] e.fn = "fuzz" -> CheckFuzz(e)
 
